@@ -168,6 +168,6 @@ pub fn run(ctx: &Ctx) {
     if ctx.is_worker || ctx.replay.is_some() {
         ctx.explore("limits", 1, 1, case_strategy, oracle);
     } else {
-        run_confs(ctx, "limits", ctx.tier.pick(10, 60), ctx.tier.pick(30, 150), false, &[]);
+        run_confs(ctx, "limits", ctx.tier.pick(16, 96), ctx.tier.pick(45, 250), false, &[]);
     }
 }
